@@ -18,7 +18,7 @@ BOUNDS = {"quick": "N = 100000", "thorough": "N = 2000000"}
 ASSUMPTIONS = ["unit-less decimals ('1000.0'), misgrouped commas, inner whitespace, a second colon and trailing garbage after "
                "a complete range are not classified by the statement and are not judged",
                "strings are built with decimal/int arithmetic, never floats"]
-EXPECT_CLASSES = {"*": ["spelling:plain", "spelling:commas", "spelling:k", "spelling:M", "spelling:G", "spelling:commas+unit", "malformed", "uri", "parse_region:string-open-beyond"]}
+EXPECT_CLASSES = {"*": ["spelling:plain", "spelling:commas", "spelling:k", "spelling:M", "spelling:G", "spelling:commas+unit", "spelling:padded", "malformed", "uri", "parse_region:string-open-beyond"]}
 
 NAMES = ["chr1", "1", "chrX_random", "name-with-hyphens-", "GL000207.1", "gb|acc|locus", "chr 1", "2-micron", "a.b", "X",
          "chrUn_KI270742v1", "-", "k", "10k"]
@@ -59,6 +59,11 @@ def spellings(v):
         m = mantissa(v, dg)
         for nm in names:
             out.append((u, m + nm))
+        # the same decimal written with trailing zeros: as many fractional digits as the unit has places, one more, four more
+        ipart, _, fpart = m.partition(".")
+        for nd in (dg, dg + 1, dg + 4):
+            if nd > len(fpart):
+                out.append(("padded", ipart + "." + fpart.ljust(nd, "0") + names[v % len(names)]))
         # thousands separators AND a unit: "1,500kb", "12,345.678k"
         ip, _, fp = m.partition(".")
         if len(ip) > 3:
